@@ -22,7 +22,7 @@ PROPERTY = 'C20'
 
 EPOCH = real_datetime.datetime(2030, 1, 1, 12, 0, 0)
 NAMES = ['a.example', 'b.example']
-ADDRS = ['10.0.0.1', '10.0.0.2']
+ADDRS = ['10.0.0.1', '10.0.0.2', 'b.example']      # the last one: a name mapped to another name (MapAddress a.example b.example)
 EXPIRIES = [('past', -10), ('5s', 5), ('1h', 3600), ('25h', 25 * 3600), ('3d', 3 * 86400), ('never', None)]
 ADVANCES = [1, 10, 2 * 3600, 26 * 3600, 4 * 86400]
 FMT = "%Y-%m-%d %H:%M:%S"
@@ -57,7 +57,13 @@ def events(tier):
     out = []
     for n in range(len(NAMES)):
         for a in range(len(ADDRS)):
-            for e in range(len(EXPIRIES)):
+            if ADDRS[a] == NAMES[n]:
+                continue
+            if ADDRS[a] in NAMES and tier == 'quick':
+                exps = [e for e in range(len(EXPIRIES)) if EXPIRIES[e][0] in ('5s', '25h', 'never')]
+            else:
+                exps = range(len(EXPIRIES))
+            for e in exps:
                 for sp in (0, 1):
                     out.append(('map', n, a, e, sp))
         out.append(('err', n))
@@ -213,13 +219,21 @@ class Run(object):
                 if got is None:
                     self.viol.append(('lookup-name-missing', self.age_class(name),
                                       'find(%r) fails but the latest mapping %r is live (now=%ds)' % (name, self.ref[name], self.now)))
+                elif got[1] != name:
+                    self.viol.append(('lookup-name-wrong-mapping', 'name-is-also-an-address',
+                                      'find(%r) -> the mapping of %r (-> %s); %r has a live mapping of its own -> %s'
+                                      % (name, got[1], got[0], name, want)))
                 elif got[0] != want:
                     self.viol.append(('lookup-name-stale-address', 'replaced',
                                       'find(%r) -> %s, latest mapping -> %s' % (name, got[0], want)))
+            elif got is not None and any(a == name for n2, (a, x) in self.ref.items()):
+                pass        # not a live name, but the address of a live mapping: found under the address (checked below)
             elif got is not None:
                 self.viol.append(('lookup-name-after-expiry', self.last_kind(ev),
                                   'find(%r) -> %s although no live mapping exists (now=%ds)' % (name, got[0], self.now)))
         for addr in ADDRS + ['<error>']:
+            if addr in self.ref:
+                continue        # a live name of its own: the lookup by name takes precedence (checked above)
             got = self.lookup(addr)
             owners = sorted(n for n, (a, x) in self.ref.items() if a == addr)
             if owners:
